@@ -19,7 +19,7 @@ CONSTANTS A1, L1,     \* enumerate all strings over the byte set A1 up to length
           A2, L2,     \* ... and all strings over A2 up to length L2 (a wider alphabet, shorter strings),
           A3, L3      \* ... and all strings over A3 up to length L3 (every type code, very short strings)
 
-Rep(n, x) == [i \in 1..n |-> x]
+Rep(n, x) == [i \in 1..n |-> x] \o <<>>   \* "\o" makes it a concrete tuple (a lazy function value is re-enumerated by every Len)
 RECURSIVE Cat(_)
 Cat(ss) == IF ss = <<>> THEN <<>> ELSE Head(ss) \o Cat(Tail(ss))
 
